@@ -529,12 +529,15 @@ def wire_wf(res):
     return bad
 
 
-def expected_open_body(sc):
-    """C14: the OPEN the configuration and the plugin's capabilities dictate (RFC 4271 4.2 / RFC 5492 / RFC 6793)"""
+def expected_open_body(sc, k=0):
+    """C14: the OPEN the configuration and the plugin's capabilities dictate (RFC 4271 4.2 / RFC 5492 / RFC 6793);
+    k = index of the GetCapabilities call (the plugin may answer differently each time)"""
     import struct
     las = sc["local_as"]
     caps = bytes([65, 4]) + struct.pack(">I", las)
-    for code, hexv in sc.get("caps") or []:
+    seq = sc.get("caps_seq") or []
+    plugin_caps = seq[min(k, len(seq) - 1)] if seq else (sc.get("caps") or [])
+    for code, hexv in plugin_caps:
         if int(code) == 65:
             continue
         v = bytes.fromhex(hexv)
@@ -546,14 +549,13 @@ def expected_open_body(sc):
 def open_wf(res, sc):
     """every connection on which corebgp speaks starts with exactly that OPEN, on every session of every FSM"""
     bad = []
-    try:
-        want = expected_open_body(sc)
-    except (ValueError, KeyError, OverflowError):
-        return bad          # capabilities that do not fit: the dedicated C14 cases decide those
-    for c in res.get("conns") or []:
-        msgs = c.get("msgs") or []
-        if not msgs:
-            continue
+    spoke = sorted([c for c in res.get("conns") or [] if c.get("msgs")], key=lambda c: c["msgs"][0]["at"])
+    for k, c in enumerate(spoke):
+        msgs = c["msgs"]
+        try:
+            want = expected_open_body(sc, k)
+        except (ValueError, KeyError, OverflowError):
+            return bad          # capabilities that do not fit: the dedicated C14 cases decide those
         if msgs[0]["t"] != 1:
             bad.append("conn %s: the first message corebgp sent is of type %d, not OPEN" % (c["name"], msgs[0]["t"]))
         elif bytes.fromhex(msgs[0]["b"]) != want:
